@@ -19,6 +19,10 @@ pub struct Case {
     pub files: Vec<(String, String)>,
     pub source: String,
     pub release: bool,
+    #[serde(default)]
+    pub crlf: bool,
+    #[serde(default)]
+    pub missing_include: bool,
 }
 
 pub struct C18;
@@ -39,6 +43,12 @@ impl C18 {
         ctx.label(format!("source:{}", case.source));
         ctx.label(format!("files:{}", case.files.len()));
         ctx.label(if case.release { "profile:release" } else { "profile:dev" });
+        if case.crlf {
+            ctx.label("crlf");
+        }
+        if case.missing_include {
+            ctx.label("missing-include");
+        }
         let dir = cli::scratch("c18", crate::runner::next_serial());
         for (n, t) in &case.files {
             let _ = std::fs::write(dir.join(n), t);
@@ -77,6 +87,7 @@ impl C18 {
             ("json-all", vec!["lint", &base, "--json", "--all-files"]),
         ];
         let mut outs: BTreeMap<&str, String> = BTreeMap::new();
+        let mut failed: Vec<(&str, String)> = vec![];
         for (name, args) in &modes {
             let r = cli::run_rva(case.release, args, dir, t);
             ctx.fact("cli_invocations", 1);
@@ -85,11 +96,25 @@ impl C18 {
                 return vec![];
             }
             if !r.clean_exit() || !r.stderr.is_empty() {
-                // crashes belong to C06; here they prevent the comparison
-                ctx.skip(&format!("c06_cli_failure:{name}"));
-                return vec![];
+                failed.push((name, format!("status {:?} signal {:?}: {}", r.status, r.signal, r.stderr.chars().take(300).collect::<String>())));
+                continue;
             }
             outs.insert(name, r.stdout);
+        }
+        if !failed.is_empty() {
+            if outs.is_empty() {
+                // every channel fails on this input: that is C06's subject, nothing to compare here
+                ctx.skip("c06_cli_failure:all-modes");
+                return vec![];
+            }
+            // some channels report the diagnostics and another one reports none of them
+            let (name, how) = &failed[0];
+            let ok: Vec<&str> = outs.keys().copied().collect();
+            return vec![mk(
+                &format!("{}/{}", name.split('-').next().unwrap_or(name), ok[0].split('-').next().unwrap_or(ok[0])),
+                "channel-fails",
+                format!("the modes {:?} print their diagnostics but mode {name} ends with {how}", ok),
+            )];
         }
         let mut out = vec![];
         // JSON: valid, documented shape
@@ -188,6 +213,15 @@ impl C18 {
                         let first_non_ws = chars.iter().position(|c| !c.is_whitespace()).unwrap_or(0);
                         let want_off = (ci.col_start - 1).saturating_sub(first_non_ws);
                         let want_n = ci.col_end + 1 - ci.col_start;
+                        // the marker line holds blanks and the marker, nothing that moves the cursor off the line or back
+                        if let Some(bad) = pi.marker.as_deref().unwrap_or("").chars().find(|c| *c != '^' && *c != '\t' && (c.is_control() || !c.is_whitespace() || matches!(c, '\u{2028}' | '\u{2029}'))) {
+                            out.push(mk(
+                                "pretty/source",
+                                "marker-line",
+                                format!("{which}: the marker line under {:?} contains U+{:04X}, which moves the marker away from columns {}:{} ({:?})", ex, bad as u32, ci.col_start, ci.col_end, ci.title),
+                            ));
+                            break;
+                        }
                         match carets {
                             Some((off, n)) if off == want_off && n == want_n => {}
                             other => {
@@ -241,6 +275,19 @@ impl C18 {
                     .map(|d| (d.file.clone(), d.range.start.line + 1, d.range.start.col + 1, d.range.end.col + 1, d.level.clone(), d.title.clone()))
                     .collect();
                 ctx.fact("library_runs_compared", 1);
+                // the wording of a failed include depends on the reader (in-memory here, file system there)
+                let norm = |v: &Vec<Key>| -> Vec<Key> {
+                    v.iter()
+                        .map(|k| {
+                            let mut k = k.clone();
+                            if k.5.starts_with("File not found: ") || k.5.starts_with("IO Error: ") {
+                                k.5 = "<include failed>".into();
+                            }
+                            k
+                        })
+                        .collect()
+                };
+                let (lk, cak) = (norm(&lk), norm(&cak));
                 if lk != cak {
                     out.push(mk("library/compact", "items", format!("RVParser::run gives {:?}, the CLI (--all-files) {:?}", lk, cak)));
                 }
@@ -261,7 +308,7 @@ impl Prop for C18 {
         if ch.chance(1, 3) {
             gen::inject_defects(&mut lines, ch, 2);
         }
-        let files = if ch.chance(1, 3) {
+        let files = if ch.chance(1, 2) {
             gen::split_include(&lines, ch, 3)
         } else {
             vec![("main.s".to_string(), lines)]
@@ -273,11 +320,28 @@ impl Prop for C18 {
             opts.indent = true;
             opts.comments = true;
         }
-        let files = files.iter().map(|(n, l)| (n.clone(), render(l, ch, &opts).text)).collect();
+        let missing_include = ch.chance(1, 8);
+        let crlf = ch.chance(1, 6);
+        let mut files = files;
+        if missing_include {
+            let k = ch.below(files.len());
+            let at = ch.below(files[k].1.len() + 1);
+            let name = *ch.pick(&["nowhere.s", "./nowhere.s", "sub/nowhere.s", ""]);
+            files[k].1.insert(at, Line::Raw(format!("    .include \"{name}\"")));
+        }
+        let files = files
+            .iter()
+            .map(|(n, l)| {
+                let t = render(l, ch, &opts).text;
+                (n.clone(), if crlf { t.replace('\n', "\r\n") } else { t })
+            })
+            .collect();
         Some(Case {
             files,
             source: base.source,
             release: ch.chance(1, 4),
+            crlf,
+            missing_include,
         })
     }
 
